@@ -145,6 +145,20 @@ def run(F, rep):
     if guard is None:
         raise AnalysisBroken('scaleEquationAst: guard on the parent type vanished')
 
+    from engines import single_def as _sd03
+
+    def unalias(x, dp=0):
+        """a local that merely names the pimpl of a node (`auto *p = n->mPimpl;`, defined once) is spelled out"""
+        if x.get('k') == 'Ref' and x.get('dk') == 'local' and dp < 3 and (x.get('t') or '').endswith('Impl *'):
+            i_ = _sd03(se, x.get('d'))
+            if i_ is not None and render(i_).endswith('->mPimpl'):
+                return unalias(i_, dp + 1)
+        if not x.get('c'):
+            return x
+        y = dict(x)
+        y['c'] = [unalias(c_, dp) for c_ in x['c']]
+        return y
+
     def val(e, ptype, is_left):
         k = e.get('k')
         c = e.get('c', [])
@@ -157,7 +171,7 @@ def run(F, rep):
             return val(c[0], ptype, is_left)
         if local_init(e) is not None:
             return val(local_init(e), ptype, is_left)
-        t = render(e)
+        t = render(unalias(e))
         m = re.match(r'astParent->mPimpl->mType (==|!=) libcellml::AnalyserEquationAst::Type::(\w+)$', t)
         if m:
             return (ptype == m.group(2)) == (m.group(1) == '==')
@@ -220,7 +234,7 @@ def run(F, rep):
         raise AnalysisBroken('scaleEquationAst: %d scaleAst call sites (4 confirmed)' % len(calls))
     seen = set()
     for c in calls:
-        conds = [(render(cnd), br) for cnd, br, st in enclosing_conditions(se, c)]
+        conds = [(render(unalias(cnd)), br) for cnd, br, st in enclosing_conditions(se, c)]
         voi = any('astGrandparent' in t for t, br in conds)
         if voi:
             gp = [br for t, br in conds if 'astGrandparent->mPimpl->mType == libcellml::AnalyserEquationAst::Type::EQUALITY' in t]
